@@ -64,6 +64,13 @@ ASSUMPTIONS = [
     "break/continue at the top level of a partial or macro body are not generated (control "
     "flow, not scope; see the final report)",
     "output sentinels (« » ‹ › ⟦ ⟧) never occur in data or literals",
+    "O3 under replaced tags: `include` means the tag the AUTHOR wrote as `{% include %}`, whatever Tag / "
+    "Node class (or `tag` attribute used for loaders) the application registered under that name; it must be "
+    "refused inside render / call, also when render itself was replaced by a subclass or registered under an "
+    "alias. An ALIAS of include (`env.tags['partial'] = IncludeTag(env)`) written as `{% partial %}` is not "
+    "judged (the engine refuses by written name; outcome recorded as a diagnostic note). A third-party "
+    "isolated-scope tag that renders its block in RenderContext.copy(token, namespace={}) IS judged: an include "
+    "in its block, inside a rendered partial or macro body, must be refused",
     "faults are injected only at the data boundary: the k-th __getitem__ of a dict/list in the "
     "render data, and data values whose __str__/__eq__ raise (consumer side of lambda filters)",
 ]
@@ -269,12 +276,17 @@ class Rt:
         self.mon = FrameMonitor().install()
         self.reported: set[str] = set()
         self.key_counts: dict[str, int] = {}
+        self.tag_classes: dict[str, Any] | None = None
 
     def close(self) -> None:
         self.mon.flush_counters(self.ctx)
         self.mon.uninstall()
 
     def env(self, kind: str, partials: dict[str, str], globals: dict[str, Any] | None = None) -> Any:  # noqa: A002
+        if kind.startswith("cfg:"):
+            if self.tag_classes is None:
+                self.tag_classes = _tag_classes()
+            return configure_tags(self.envs["std"](loader=self.DictLoader(partials)), kind[4:], self.tag_classes)
         if globals is None:
             return self.envs[kind](loader=self.DictLoader(partials))
         return self.envs[kind](loader=self.DictLoader(partials), globals=globals)
@@ -1160,7 +1172,124 @@ O3_BLOCKS = [
     ("capture", "{% capture c %}{% include 'q' %}{% endcapture %}{{ c }}"),
     ("dynamic-name", "{% assign nm = 'q' %}{% include nm %}"),
     ("for-else", "{% for i in nosuch %}{% else %}{% include 'q' %}{% endfor %}"),
+    # not the first token of its enclosing block / template
+    ("later-top", "x{{ g1 }}{% include 'q' %}"),
+    ("later-for", "{% for i in (1..2) %}y{% include 'q' %}{% endfor %}"),
+    ("later-if", "{% if true %}{{ g1 }}{% assign z = 1 %}{% include 'q' %}{% endif %}"),
+    ("later-with", "{% with a: 1 %}{{ a }}{% include 'q' %}{% endwith %}"),
+    ("later-capture", "{% capture c %}z{% include 'q' %}{% endcapture %}{{ c }}"),
 ]
+O3_BOX_BLOCKS = [  # only in configurations that register the custom block tag `box`
+    ("box-first", "{% box %}{% include 'q' %}{% endbox %}"),
+    ("box-later", "{% box %}b{% include 'q' %}{% endbox %}"),
+    ("for-box-later", "{% for i in (1..2) %}{% box %}b{{ i }}{% include 'q' %}{% endbox %}{% endfor %}"),
+]
+O3_ISO_BLOCKS = [  # only with the third-party isolated-scope tag `iso` (renders its block in context.copy())
+    ("iso-first", "{% iso %}{% include 'q' %}{% endiso %}"),
+    ("iso-later", "{% iso %}z{% include 'q' %}{% endiso %}"),
+    ("for-iso-later", "{% for i in (1..2) %}{% iso %}z{{ g1 }}{% include 'q' %}{% endiso %}{% endfor %}"),
+    ("iso-iso-later", "{% iso %}{% iso %}z{% include 'q' %}{% endiso %}{% endiso %}"),
+    ("iso-if-later", "{% iso %}{% if true %}z{% include 'q', a: 1 %}{% endif %}{% endiso %}"),
+]
+# Tag configurations (docs/custom_tags.md "Add a tag" / "Replace a tag")
+O3_TAG_CONFIGS = ["std", "include-subclass-tag", "include-subclass-node", "include-alias", "render-subclass-tag",
+                  "render-alias", "custom-block", "include-subclass-tag+custom-block", "custom-isolated-tag"]
+
+
+def _tag_classes() -> dict[str, Any]:
+    from liquid2 import BlockNode
+    from liquid2 import Node
+    from liquid2 import Tag
+    from liquid2 import TagToken
+    from liquid2.builtin.tags.include_tag import IncludeNode
+    from liquid2.builtin.tags.include_tag import IncludeTag
+    from liquid2.builtin.tags.render_tag import RenderNode
+    from liquid2.builtin.tags.render_tag import RenderTag
+
+    class SnippetNode(IncludeNode):  # the documented way to tell loaders which tag is loading
+        tag = "snippet"
+
+    class SnippetTag(IncludeTag):
+        node_class = SnippetNode
+
+    class CountingIncludeNode(IncludeNode):  # another node class, same `tag`
+        calls = 0
+
+        def render_to_output(self, context: Any, buffer: Any) -> int:
+            type(self).calls += 1
+            return super().render_to_output(context, buffer)
+
+        async def render_to_output_async(self, context: Any, buffer: Any) -> int:
+            type(self).calls += 1
+            return await super().render_to_output_async(context, buffer)
+
+    class CountingIncludeTag(IncludeTag):
+        node_class = CountingIncludeNode
+
+    class CardNode(RenderNode):
+        tag = "card"
+
+    class CardTag(RenderTag):
+        node_class = CardNode
+
+    class BoxNode(Node):  # a custom block tag that renders its block in the current context
+        def __init__(self, token: Any, block: Any):
+            super().__init__(token)
+            self.block = block
+            self.blank = block.blank
+
+        def render_to_output(self, context: Any, buffer: Any) -> int:
+            return self.block.render(context, buffer)
+
+        async def render_to_output_async(self, context: Any, buffer: Any) -> int:
+            return await self.block.render_async(context, buffer)
+
+    class BoxTag(Tag):
+        block = True
+
+        def parse(self, stream: Any) -> Any:
+            token = stream.next()
+            assert isinstance(token, TagToken)
+            block = BlockNode(stream.current(), self.env.parser.parse_block(stream, ("endbox",)))
+            stream.expect_tag("endbox")
+            return BoxNode(token, block)
+
+    class IsoNode(BoxNode):  # a custom isolated-scope tag written against RenderContext.copy()
+        def render_to_output(self, context: Any, buffer: Any) -> int:
+            return self.block.render(context.copy(self.token, namespace={}), buffer)
+
+        async def render_to_output_async(self, context: Any, buffer: Any) -> int:
+            return await self.block.render_async(context.copy(self.token, namespace={}), buffer)
+
+    class IsoTag(Tag):
+        block = True
+
+        def parse(self, stream: Any) -> Any:
+            token = stream.next()
+            block = BlockNode(stream.current(), self.env.parser.parse_block(stream, ("endiso",)))
+            stream.expect_tag("endiso")
+            return IsoNode(token, block)
+
+    return {"SnippetTag": SnippetTag, "CountingIncludeTag": CountingIncludeTag, "CardTag": CardTag,
+            "BoxTag": BoxTag, "IsoTag": IsoTag, "IncludeTag": IncludeTag, "RenderTag": RenderTag}
+
+
+def configure_tags(env: Any, cfg: str, classes: dict[str, Any]) -> Any:
+    if "include-subclass-tag" in cfg:
+        env.tags["include"] = classes["SnippetTag"](env)
+    if cfg == "include-subclass-node":
+        env.tags["include"] = classes["CountingIncludeTag"](env)
+    if cfg == "include-alias":
+        env.tags["partial"] = classes["IncludeTag"](env)
+    if cfg == "render-subclass-tag":
+        env.tags["render"] = classes["CardTag"](env)
+    if cfg == "render-alias":
+        env.tags["card"] = classes["RenderTag"](env)
+    if "custom-block" in cfg:
+        env.tags["box"] = classes["BoxTag"](env)
+    if cfg == "custom-isolated-tag":
+        env.tags["iso"] = classes["IsoTag"](env)
+    return env
 
 
 def o3_paths(maxlen: int) -> list[tuple[str, ...]]:
@@ -1179,7 +1308,8 @@ def o3_paths(maxlen: int) -> list[tuple[str, ...]]:
     return out
 
 
-def o3_build(path: tuple[str, ...], block: str) -> tuple[str, dict[str, str]]:
+def o3_build(path: tuple[str, ...], block: str, render_word: str = "render",
+             include_word: str = "include") -> tuple[str, dict[str, str]]:
     parts = {"q": "QQ"}
     inner = block
     for d in range(len(path) - 1, -1, -1):
@@ -1200,64 +1330,96 @@ def o3_build(path: tuple[str, ...], block: str) -> tuple[str, dict[str, str]]:
         name = f"t{d}"
         parts[name] = inner
         if s == "include":
-            inner = f"{{% include '{name}' %}}"
+            inner = f"{{% {include_word} '{name}' %}}"
         elif s == "render":
-            inner = f"{{% render '{name}' %}}"
+            inner = f"{{% {render_word} '{name}' %}}"
         elif s == "render-with":
-            inner = f"{{% render '{name}' with g1 as a %}}"
+            inner = f"{{% {render_word} '{name}' with g1 as a %}}"
         else:
-            inner = f"{{% render '{name}' for gs as a %}}"
+            inner = f"{{% {render_word} '{name}' for gs as a %}}"
     return inner, parts
 
 
 def run_o3(rt: Rt, spec: dict[str, Any]) -> None:
+    """include is refused on every path through render / a macro body: all paths x include
+    forms x positions in the standard environment, shorter paths in environments whose tags
+    were replaced / aliased / extended as docs/custom_tags.md describes."""
     ctx = rt.ctx
-    paths = o3_paths(3 if spec["tier"] == "quick" else 4)
     idx = 0
-    for path in paths:
-        isolating = any(s in O3_ISOLATING for s in path)
-        last_iso = max((k for k, s in enumerate(path) if s in O3_ISOLATING), default=0)
-        for bname, block in O3_BLOCKS:
-            idx += 1
-            if idx % spec["n"] != spec["i"]:
-                continue
-            src, parts = o3_build(path, block)
-            full = ">".join("macro" if s == "call" else s for s in path)
-            # mechanism = the last isolating step and the (shared-scope) steps between it and the include
-            where = ("macro" if path[last_iso] == "call" else path[last_iso]) + (
-                ">block" if "block" in path[last_iso:] else "")
-            for mode in ("sync", "async"):
-                res = frame_case(rt, "std", src, parts, GLOBALS, mode, own=(idx % 2 == 0))
-                ctx.seen("o3_paths", full)
-                if not isolating:
-                    ctx.count("O3_controls")
-                    if not (res.ok and "QQ" in res.out):
-                        ctx.note(f"O3 control (include only) failed: {src!r} -> {res.err or res.out!r}")
-                        ctx.count("O3_control_failures")
+    for cfg in O3_TAG_CONFIGS:
+        std = cfg == "std"
+        kind = "std" if std else "cfg:" + cfg
+        paths = o3_paths((3 if spec["tier"] == "quick" else 4) if std else 2)
+        blocks = O3_BLOCKS + (O3_BOX_BLOCKS if "custom-block" in cfg else []) + (
+            O3_ISO_BLOCKS if cfg == "custom-isolated-tag" else [])
+        render_word = "card" if cfg == "render-alias" else "render"
+        # (with an alias registered, the shared-scope steps are written with the alias; the
+        # include that must be refused is always the one the author wrote as `include`)
+        include_word = "partial" if cfg == "include-alias" else "include"
+        suffix = "" if std else f"[tags={cfg}]"
+        for path in paths:
+            isolating = any(s in O3_ISOLATING for s in path)
+            last_iso = max((k for k, s in enumerate(path) if s in O3_ISOLATING), default=0)
+            for bname, block in blocks:
+                idx += 1
+                if idx % spec["n"] != spec["i"]:
                     continue
-                if res.err == "DisabledTagError":
-                    ctx.count("O3_refusals")
-                    ctx.nt("o3", src, sorted(parts.items()), mode)
-                else:
-                    ctx.violation(
-                        f"O3:include-not-refused@{where}",
-                        f"include reached through {full} (block form {bname}) was not refused: "
-                        + (f"rendered {res.out!r}" if res.ok else f"raised {res.err}"),
-                        {"oracle": "O3", "key": f"O3:include-not-refused@{where}", "source": src,
-                         "partials": parts, "data": GLOBALS, "env": "std", "mode": mode},
-                    )
-            # after leaving the isolated construct, include works again in the caller
-            if isolating and bname == "plain" and "block" not in path:
-                src2, parts2 = o3_build(path, "x")
-                res = frame_case(rt, "std", src2 + "{% include 'q' %}", parts2, GLOBALS, "sync", own=True)
-                ctx.count("O3_include_after_isolated_construct")
-                if not (res.ok and res.out.endswith("QQ")) and "include" not in path:
-                    ctx.violation(
-                        f"O3:include-refused-after@{where}",
-                        f"include in the caller after {where} did not render: {res.err or res.out!r}",
-                        {"oracle": "O3b", "key": f"O3:include-refused-after@{where}", "source": src2 + "{% include 'q' %}",
-                         "partials": parts2, "data": GLOBALS, "env": "std", "mode": "sync"},
-                    )
+                src, parts = o3_build(path, block, render_word, include_word)
+                full = ">".join("macro" if s == "call" else s for s in path)
+                # mechanism = the last isolating step and whether a block follows it
+                where = ("macro" if path[last_iso] == "call" else path[last_iso]) + (
+                    ">block" if "block" in path[last_iso:] else "")
+                position = "later" if bname.startswith("later") or bname.endswith("later") else "first"
+                if bname in dict(O3_ISO_BLOCKS):
+                    ctx.count("O3_cases_inside_custom_isolated_tag", 2)
+                for mode in ("sync", "async"):
+                    res = frame_case(rt, kind, src, parts, GLOBALS, mode, own=(idx % 2 == 0))
+                    ctx.seen("o3_paths", full)
+                    ctx.seen("o3_tag_configs", cfg)
+                    if not isolating:
+                        ctx.count("O3_controls")
+                        if not (res.ok and "QQ" in res.out):
+                            ctx.note(f"O3 control (include only, tags={cfg}) failed: {src!r} -> {res.err or res.out!r}")
+                            ctx.count("O3_control_failures")
+                        continue
+                    if res.err == "DisabledTagError":
+                        ctx.count("O3_refusals")
+                        ctx.count(f"O3_refusals_include_{position}_in_block")
+                        if not std:
+                            ctx.count("O3_refusals_under_replaced_tags")
+                        ctx.nt("o3", cfg, src, sorted(parts.items()), mode)
+                    else:
+                        key = f"O3:include-not-refused@{where}{suffix}"
+                        ctx.violation(
+                            key,
+                            f"include reached through {full} (include form {bname}, tags={cfg}) was not refused: "
+                            + (f"rendered {res.out!r}" if res.ok else f"raised {res.err}"),
+                            {"oracle": "O3", "key": key, "source": src, "partials": parts, "data": GLOBALS,
+                             "env": kind, "mode": mode},
+                        )
+                # after leaving the isolated construct, include works again in the caller
+                if isolating and bname == "plain" and "block" not in path:
+                    src2, parts2 = o3_build(path, "x", render_word, include_word)
+                    res = frame_case(rt, kind, src2 + "{% include 'q' %}", parts2, GLOBALS, "sync", own=True)
+                    ctx.count("O3_include_after_isolated_construct")
+                    if not (res.ok and res.out.endswith("QQ")) and "include" not in path:
+                        key = f"O3:include-refused-after@{where}{suffix}"
+                        ctx.violation(
+                            key,
+                            f"include in the caller after {where} (tags={cfg}) did not render: {res.err or res.out!r}",
+                            {"oracle": "O3b", "key": key, "source": src2 + "{% include 'q' %}",
+                             "partials": parts2, "data": GLOBALS, "env": kind, "mode": "sync"},
+                        )
+    if spec["i"] == 0:
+        o3_diagnostics(rt)
+
+
+def o3_diagnostics(rt: Rt) -> None:
+    """Not judged (see ASSUMPTIONS): an alias of include."""
+    parts = {"q": "QQ", "t": "{% partial 'q' %}"}
+    res = rt.run(rt.env("cfg:include-alias", parts), "{% render 't' %}", {}, "sync")
+    rt.ctx.note("diagnostic (alias, not judged): include registered a second time as `partial`, used inside a "
+                f"rendered partial -> {res.out if res.ok else res.err!r}")
 
 
 # ======================================================================================
@@ -1981,7 +2143,8 @@ def shards(tier: str, seed: int) -> list[dict[str, Any]]:
     for kind, n in NSHARDS.items():
         for i in range(n):
             specs.append({"kind": kind, "i": i, "n": n, "per": PER[kind][0 if tier == "quick" else 1]})
-    specs.append({"kind": "o3", "i": 0, "n": 1})
+    for i in range(3):
+        specs.append({"kind": "o3", "i": i, "n": 3})
     return specs
 
 
@@ -2013,7 +2176,11 @@ def floors(tier: str) -> dict[str, int]:
         "set:data_layer_configs": 9,
         "set:isolation_nests": 100,
         "set:block_wrappers": 40,
-        "O3_refusals": 1000,
+        "O3_refusals": 4000,
+        "O3_refusals_under_replaced_tags": 2000,
+        "O3_refusals_include_later_in_block": 1500,
+        "O3_cases_inside_custom_isolated_tag": 300,
+        "set:o3_tag_configs": len(O3_TAG_CONFIGS),
         "depth_sweep_raised": 100,
         "O4_probe_pairs": 1000 * k,
         "O6_order_pairs": 150 * k,
@@ -2033,8 +2200,9 @@ def run_shard(spec: dict[str, Any], ctx: Ctx) -> None:
         kind = spec["kind"]
         if kind == "o3":
             run_o3(rt, spec)
-            run_depth_sweep(rt, spec)
-            run_diagnostics(rt)
+            if spec["i"] == 0:
+                run_depth_sweep(rt, spec)
+                run_diagnostics(rt)
             return
         fn = KINDS[kind]
         seed = f"{spec['seed']}:{spec['i']}"
